@@ -24,7 +24,7 @@ From Coq Require Import List Bool String NArith.
 Import ListNotations.
 From Mv Require Import Model.Entry Model.Fs Model.FsExt Model.Transition Model.TransitionCheck
      Proof.FsFacts Proof.TransPrims Proof.TransitionC08 Proof.TransitionC08Top
-     Proof.TransitionC08Check.
+     Proof.TransitionC08Check Proof.TransitionC08Model.
 Open Scope string_scope.
 Open Scope list_scope.
 
@@ -119,6 +119,23 @@ Theorem c08_check_sound :
     c08_spec norm slm rn ch pre post problems plan.
 Proof. exact check_c08_sound. Qed.
 
+(* The model's own output passes the checker: for every environment (all
+   failure placements and cancellation points), cache, staging area, modes,
+   ownership, symbolic-link mode; for every tree with sorted listings of
+   listable names and every plan with unrelated paths whose old entries are
+   valid entries (Entry.EnsureValid): check_c08 accepts the disk before, the
+   disk after and the problems of the model transition. *)
+Theorem c08_model_passes :
+  forall (norm : path -> string -> option string) (E : env) (rn : name) (ch : cache)
+         (slm : slmode) (dfm ddm : N) (own fixed : bool)
+         (plan : list change) (fs0 : node) (stg : store),
+    rn <> "." -> tsorted fs0 -> tlisted fs0 -> plan_disjoint plan -> plan_paths_ok plan ->
+    Forall (fun c => wf false (cold c) = true) plan ->
+    check_c08 norm slm rn ch fs0
+              (tfs (final norm E rn ch slm dfm ddm own fixed fs0 stg plan))
+              (tprobs (final norm E rn ch slm dfm ddm own fixed fs0 stg plan)) plan = true.
+Proof. exact c08_model_passes_thm. Qed.
+
 (* The hypotheses are satisfiable, and the guard fires, on a concrete state:
    root/ holds d/ with the file f (which the scan cached with mtime 5) and an
    unknown child u; f was rewritten since (mtime 9); the plan deletes d. *)
@@ -145,6 +162,7 @@ Example c08_guard_fires :
 Proof. vm_compute. repeat split. Qed.
 
 Print Assumptions c08_check_sound.
+Print Assumptions c08_model_passes.
 Print Assumptions c08_file_guard.
 Print Assumptions c08_link_guard.
 Print Assumptions c08_unknown_child.
